@@ -70,8 +70,8 @@ class Schedule:
 class Scheduler:
     """Owns the sys.monitoring tool; run() executes one schedule of thread bodies."""
 
-    def __init__(self) -> None:
-        self.prefixes = (os.path.join(common.KIO_DIR, "serial") + os.sep, os.path.join(common.KIO_DIR, "_utils.py"))
+    def __init__(self, prefixes: tuple[str, ...] | None = None) -> None:
+        self.prefixes = prefixes or (os.path.join(common.KIO_DIR, "serial") + os.sep, os.path.join(common.KIO_DIR, "_utils.py"))
         self.current: Schedule | None = None
         self.started = False
 
